@@ -37,7 +37,9 @@ Line ==
        [] Ev.t = "libobs" -> UNCHANGED <<vars, cs>> /\ Judge(LibClause)
        [] Ev.t = "reopen" -> UNCHANGED <<vars, cs>> /\ Judge(IF Ev.err # "" THEN "directory-not-reusable-after-close" ELSE "ok")
        [] Ev.t = "bgfail" -> UNCHANGED <<vars, cs>> /\ Judge("background-failure")
-       [] dead /\ Ev.t \notin {"reset", "obs", "libobs", "reopen", "bgfail"} -> UNCHANGED <<vars, cs, bad, nok, dead>>
+       \* disabledness: CloseFlusherJoined is not enabled while the flusher is at work - however long that takes
+       [] Ev.t = "blocked" -> UNCHANGED <<vars, cs>> /\ Judge(IF Ev.still THEN "ok" ELSE "close-returned-while-the-flusher-was-still-at-work")
+       [] dead /\ Ev.t \notin {"reset", "obs", "libobs", "reopen", "bgfail", "blocked"} -> UNCHANGED <<vars, cs, bad, nok, dead>>
        [] ~dead /\ Ev.t = "open" ->
             \* recovery decides how many tables there are (logged); everything else is Open(bg)
             UNCHANGED cs /\ IF phase = "closed"
